@@ -101,14 +101,14 @@ def leg_a(rep, depth):
     rep.extra['leg_A'] = {'behaviours_replayed': len(cases), 'depth': depth}
 
 
-def leg_b(rep, n_beh, n_steps, acts, judged=None, seed_off=15, Tmax=10):
+def leg_b(rep, n_beh, n_steps, acts, judged=None, seed_off=15, Tmax=10, max_step=3):
     core.gemdat_src_first()
     rng = np.random.default_rng(rep.seed + seed_off)
     fams = list(gen.FAMILIES)
     recs = []
     metas = {}
     for b in range(n_beh):
-        r = traj_drive.random_behaviour(b, rng, fams[b % len(fams)], ['chol', 'pmg', 'rot'][b % 3], n_steps, acts, Tmax=Tmax)
+        r = traj_drive.random_behaviour(b, rng, fams[b % len(fams)], ['chol', 'pmg', 'rot'][b % 3], n_steps, acts, Tmax=Tmax, max_step=max_step)
         recs += r.recs
         metas[b] = r.meta
     verdicts = core.validate_traces('TraceTraj', recs, timeout=2400)
